@@ -18,7 +18,9 @@ def run(ctx, factor):
         defs = [{"name": "@d1", "pattern": [g.pick(["mov", {"add": ["rax"]}])]},
                 {"name": "@d2", "pattern": g.pick(["rbx", "push"])}]
         status = g.pick(["defined-before", "defined-after", "undefined", "defined"])
-        ref = "@ref"
+        # the referenced name: also names that extend the documented wildcard `@any` and other shipped macro names
+        # (an undefined `@any_shift` is as undefined as `@ref`)
+        ref = g.pick(["@ref", "@ref", "@any_shift", "@anyreg", "@any", "@reg_gp", "@imm_8", "@any_rot"])
         refdef = {"name": ref, "pattern": [g.pick(["pop", {"sub": ["rcx"]}])] if g.chance(0.5) else "xor"}
         pos = g.pick(["list-item", "operand", "dict-value", "key-with-operands", "key-with-times", "in-macro-body",
                       "embedded-in-operand", "embedded-in-mnemonic", "embedded-in-dict-value", "in-macro-argument"])
@@ -83,6 +85,10 @@ def run(ctx, factor):
             rep.disagree("T1-regex-text(macro rule)", case, r, mr)
         if r[0] == "ok" and "@" in r[1]:
             rep.violate("reference-survives-into-the-matcher", case, "error or a regex without @", {"regex": r[1]},
+                        model_agrees_with_spec=(mr[0] == "err"))
+        if status == "undefined" and r[0] == "ok":
+            # no definition of the referenced name is in play: the only acceptable outcome is an error
+            rep.violate("undefined-reference-not-reported", case, "an error naming " + ref, {"regex": r[1]},
                         model_agrees_with_spec=(mr[0] == "err"))
         if any(not m["name"].startswith("@") for m in macros) and r[0] == "ok":
             rep.violate("macro-name-without-@-accepted", case, "error", {"regex": r[1]})
